@@ -354,13 +354,25 @@ func checkC15(c *Ctx) {
 						}
 					}
 				})
-				if !readyOnlyNil || hf.Signature.Results().Len() != 1 || hf.Signature.Results().At(0).Type().String() != "error" {
+				if !readyOnlyNil || hf.Signature.Results().Len() != 1 {
 					continue
 				}
-				// every nil return is on the ready case; every other return is a (non-nil) ctx.Err()
+				isErr := hf.Signature.Results().At(0).Type().String() == "error"
+				isBool := types.Identical(hf.Signature.Results().At(0).Type(), types.Typ[types.Bool])
+				if !isErr && !isBool {
+					continue
+				}
+				// error form: every nil return is on the ready case; every other return is a (non-nil) ctx.Err().
+				// bool form: true = the signal was taken, false = the context is done.
 				okHelper := true
 				for _, r := range returnsOf(hf) {
 					v := retValue(r, 0)
+					if isBool {
+						if !isBoolConst(v, true) && !isBoolConst(v, false) {
+							okHelper = false
+						}
+						continue
+					}
 					if isNilConst(v) {
 						continue
 					}
@@ -373,7 +385,7 @@ func checkC15(c *Ctx) {
 					for _, b := range get.Blocks {
 						for _, succ := range b.Succs {
 							for _, f := range fl.edgeFacts(b, succ) {
-								if f.Op == "==" && oneIsNil(f) && nonNil(f) == ck {
+								if (f.Op == "==" && oneIsNil(f) && nonNil(f) == ck) || (f.Op == "true" && f.L == ck) {
 									n++
 									isExam := func(x ssa.Instruction) bool {
 										call, ok := x.(ssa.CallInstruction)
